@@ -7,6 +7,8 @@ mod fmr;
 mod issuance;
 mod pools;
 mod psetblind;
+mod psetbuild;
+mod psetcodec;
 mod psetview;
 mod scalar;
 mod sha256c;
@@ -62,6 +64,9 @@ fn main() {
         ("psetblind", "replay") => psetblind::replay(rest, &mut out),
         ("blind", "replay") => blind::replay(rest, &mut out),
         ("blind", "explicit") => blind::explicit(rest, &mut out),
+        ("psetcodec", "subsets") => psetcodec::subsets(rest, &mut out),
+        ("psetcodec", "edits") => psetcodec::edits(rest, &mut out),
+        ("psetcodec", "record") => psetcodec::record(rest, &mut out),
         ("dynafed", "record") => dynafed::record(rest, &mut out),
         (m, c) => {
             eprintln!("unknown command {} {}", m, c);
